@@ -161,23 +161,20 @@ def check(R, F, P, cfg):
     drops = S.calls_to(CCBOX0 + "drop_inner")
     frees = S.calls_to("utils::cc_dealloc")
     ok = bool(drops) and bool(frees)
-    # the for_each carrying the drop closure dominates the for_each carrying the free closure
-    def carrier(x):
-        c = x.ctx
-        while c is not None and c.parent is not S.root_ctx:
-            c = c.parent
-        return c.call_node if c is not None else None
-    cd = {carrier(x) for x in drops}
-    cf = {carrier(x) for x in frees}
-    ok = ok and len(cd) == 1 and len(cf) == 1 and None not in cd and None not in cf and list(cd)[0] is not list(cf)[0] and S.dominates(list(cd)[0], list(cf)[0], exclude=("ui", "u"))
-    # both passes iterate the same list from its head
+    # the pass (for_each/fold closure or `for` loop over list.iter()) running the destructors dominates the pass freeing the boxes
+    icd = [iteration_context(S, x) for x in drops]
+    icf = [iteration_context(S, x) for x in frees]
+    ok = ok and all(icd) and all(icf)
+    same_list = False
     it_args = []
-    for c in list(cd) + list(cf):
-        if c is not None:
-            a0 = strip(S.args_of(c)[0])
-            it_args.append((a0[1], fmt(a0[2][0])) if isinstance(a0, tuple) and a0[0] == "ret" and a0[2] else fmt(a0))
-    same_list = len(set(it_args)) == 1 and isinstance(it_args[0], tuple) and it_args[0][0] == LL + "iter"
-    R.inst("R3.3", "all-drops-before-all-frees", ok and same_list, "drop pass (for_each with drop_inner) dominates the free pass (for_each with cc_dealloc)=%s; both iterate %s" % (ok, sorted(set(it_args))), where=dl.span, cfg=cfg)
+    if ok:
+        pd_ = {ic["pass"].idx for ic in icd}
+        pf_ = {ic["pass"].idx for ic in icf}
+        ok = len(pd_) == 1 and len(pf_) == 1 and pd_ != pf_ and S.dominates(S.nodes[list(pd_)[0]], S.nodes[list(pf_)[0]], exclude=("ui", "u"))
+        ok = ok and all(ic["every"] and ic["whole"] for ic in icd + icf)
+        it_args = sorted({fmt(ic["list"]) for ic in icd + icf})
+        same_list = len(it_args) == 1
+    R.inst("R3.3", "all-drops-before-all-frees", ok and same_list, "destructor pass (drop_inner once per element) dominates the freeing pass (cc_dealloc once per element)=%s; both iterate %s" % (ok, it_args), where=dl.span, cfg=cfg)
     unmark = [x for x in S.nodes if not x.is_cleanup and x.ctx.via != "dtor" and is_call(x, LL + "remove_first", LL + "remove", CM + "mark", LQ + "poll") and not _in_dtor(x)]
     R.inst("R3.3", "members-stay-marked", not unmark, "un-marking/unlinking calls on the normal path of deallocate_list: %s" % ([x.where() for x in unmark] or "none"), where=dl.span, cfg=cfg)
 
